@@ -43,6 +43,9 @@ def generate(rng, tier):
                 withdiag.insert(rng.randrange(len(withdiag) + 1), (d_, d_))
                 cases.append({"k": "condseq", "n": n, "ijs": withdiag, "cont": cont})
         cases.append({"k": "sq", "n": n, "ks": list(range(n * (n - 1) // 2))})
+    for n in (64, 100, 127, 128, 200, 255, 256, 16384, 20000, 32767, 32768, 50000, 65535):
+        ijs = [(rng.randrange(n), rng.randrange(n)) for _ in range(30)] + [(n - 2, n - 1), (1, 2), (0, n - 1)]
+        cases.append({"k": "condarr", "n": n, "ijs": [(i, j) for i, j in ijs if i != j]})
     big = [10 ** e + d for e in (3, 4, 5, 6, 7) for d in (-1, 0, 1, 7)] + [rng.randrange(50, 10 ** 7) for _ in range(40 if tier == "thorough" else 10)]
     for n in big:
         ks = set()
@@ -122,7 +125,16 @@ def run(case):
         if not case["ijs"]:
             return {"obs": []}
         i, j = np.array([p[0] for p in case["ijs"]]), np.array([p[1] for p in case["ijs"]])
-        return {"obs": [int(x) for x in d.to_condensed(case["n"], i, j)]}
+        obs = [int(x) for x in d.to_condensed(case["n"], i, j)]
+        # the size given as a NumPy integer scalar of any width that holds it (e.g. labels.max() + 1 of a compact array)
+        import warnings
+        for T in (np.uint8, np.int8, np.int16, np.uint16, np.int32, np.uint32, np.int64):
+            if case["n"] <= np.iinfo(T).max:
+                with warnings.catch_warnings():
+                    warnings.simplefilter("ignore")
+                    got = [int(x) for x in d.to_condensed(T(case["n"]), i, j)]
+                assert got == obs, "to_condensed(%s(%d), ...) differs from to_condensed(%d, ...)" % (T.__name__, case["n"], case["n"])
+        return {"obs": obs}
     if k == "condseq":
         ii, jj = [p[0] for p in case["ijs"]], [p[1] for p in case["ijs"]]
         cont = case["cont"]
